@@ -127,7 +127,12 @@ def memdep_edges(seq):
                     s_addr = _addr({}, st)
                     l_addr = _addr(state_for_addr, ld)
                     if l_addr is None or s_addr is None:
-                        verdict = "unspecified"
+                        # the value of an address register is unknown (untracked change).  If
+                        # the load names the same registers as the store the statement is
+                        # silent; if it goes through another register that is not an accounted
+                        # copy of the store's register, the base/index registers differ
+                        same_names = (ld.base == st.base and ld.index == st.index)
+                        verdict = "unspecified" if (same_names or s_addr is None) else "forbidden"
                     else:
                         same_regs = s_addr[0] == l_addr[0]
                         if same_regs and s_addr[1] == l_addr[1]:
